@@ -436,3 +436,14 @@ CASES += [
  dict(id='bddio-helper-wrong-filter', kind='fire', file=IO, patch='bn2-07.diff', old='|| (child == &BDD::False && self.filter == TruthTableEntry::False)', new='|| (child == &BDD::False && self.filter == TruthTableEntry::True)', expect={'C14': 'X2'}, control=False),
  dict(id='parserio-helper-wrong-child', kind='fire', file=PIO, patch='bn2-06.diff', old='edges.push((i, "R".to_string(), self.position_of(r)));', new='edges.push((i, "R".to_string(), self.position_of(l)));', expect={'C14': 'X6'}, control=False),
 ]
+
+CASES += [
+ dict(id='cli-retain-takes-filter', kind='fire', file=M, old='.retain_choice_bottom_up(result, args.retain_choices);', new='.retain_choice_bottom_up(result, args.filter);', expect={'C20': '--retain-choices'}),
+ dict(id='cli-table-takes-retain', kind='fire', file=M, old='''            args.filter,
+            &input_parsed,
+            &widths,''', new='''            args.retain_choices,
+            &input_parsed,
+            &widths,''', expect={'C10': '--filter'}),
+ dict(id='cli-dot-takes-retain', kind='fire', file=M, old='let graph = BDDGraph::new(&result, args.filter);', new='let graph = BDDGraph::new(&result, args.retain_choices);', expect={'C14': '--filter'}),
+ dict(id='cli-filter-local', kind='silent', file=M, old='let graph = BDDGraph::new(&result, args.filter);', new='let shown = args.filter;\n        let graph = BDDGraph::new(&result, shown);', checks=['C14', 'C10']),
+]
